@@ -1,6 +1,7 @@
 package vuego
 
 import (
+	"fmt"
 	"io"
 	"io/fs"
 	"sync"
@@ -222,6 +223,27 @@ func assignSeenAttrs(ctx *VueContext, node *html.Node) {
 	}
 	for c := node.FirstChild; c != nil; c = c.NextSibling {
 		assignSeenAttrs(ctx, c)
+	}
+}
+
+// assignStableSeenAttrs stamps v-once elements with ids derived from prefix
+// and their position in document order. Included components are parsed anew
+// for every include; position-based ids make the second instantiation of the
+// same element recognisable, while different files never share an id.
+func assignStableSeenAttrs(prefix string, nodes []*html.Node) {
+	n := 0
+	var walk func(node *html.Node)
+	walk = func(node *html.Node) {
+		if node.Type == html.ElementNode && helpers.HasAttr(node, "v-once") {
+			n++
+			helpers.SetAttr(node, "v-once-id", fmt.Sprintf("%s#%d", prefix, n))
+		}
+		for c := node.FirstChild; c != nil; c = c.NextSibling {
+			walk(c)
+		}
+	}
+	for _, node := range nodes {
+		walk(node)
 	}
 }
 
